@@ -83,6 +83,9 @@ struct Add {
     /// address is formed as (region + bias) + (off - bias): exercises negative / 32-bit displacements
     bias: i32,
     via_lddw: bool,
+    /// the source register IS the base register (`xadd [rX+d], rX`): the addend is the base
+    /// register's value, i.e. an address — resolved per process, such runs are not hashed
+    src_is_base: bool,
 }
 
 #[derive(Clone, Debug)]
@@ -103,6 +106,28 @@ struct Scenario {
     strategy: Strategy,
     /// explicit decision list (replay) — empty when the schedule is to be drawn from the PRNG
     schedule: Option<Vec<u8>>,
+}
+
+impl Scenario {
+    fn addr_dependent(&self) -> bool {
+        self.execs.iter().any(|e| e.adds.iter().any(|a| a.src_is_base))
+    }
+    /// Fill in the addends that are addresses (base register used as source).
+    fn resolve(&mut self, region_addr: u64) {
+        for e in self.execs.iter_mut() {
+            for a in e.adds.iter_mut() {
+                if a.src_is_base {
+                    a.addend = region_addr.wrapping_add(a.bias as i64 as u64);
+                    if a.addend & mask(a.width) == 0 {
+                        // an addend of 0 modulo the width would make the add invisible: use another register
+                        a.src_is_base = false;
+                        a.addend = 1;
+                        a.via_lddw = false;
+                    }
+                }
+            }
+        }
+    }
 }
 
 fn aligned(a: &Add) -> bool {
@@ -133,14 +158,17 @@ fn build_program(e: &ExecSpec, region_addr: u64) -> Vec<u8> {
                 push(ins(0x07, a.base_reg, 0, 0, a.bias));
             }
         }
-        if a.via_lddw {
+        let src_reg = if a.src_is_base { a.base_reg } else { a.src_reg };
+        if a.src_is_base {
+            // nothing to load: the addend is whatever the base register holds
+        } else if a.via_lddw {
             push(ins(0x18, a.src_reg, 0, 0, a.addend as u32 as i32));
             push(ins(0, 0, 0, 0, (a.addend >> 32) as u32 as i32));
         } else {
             push(ins(0xb7, a.src_reg, 0, 0, a.addend as i64 as i32));
         }
         let disp = a.off as i32 - a.bias;
-        push(ins(if a.width == 4 { 0xc3 } else { 0xdb }, a.base_reg, a.src_reg, disp as i16, 0));
+        push(ins(if a.width == 4 { 0xc3 } else { 0xdb }, a.base_reg, src_reg, disp as i16, 0));
         if a.base_reg == 1 && a.bias != 0 {
             push(ins(0xbf, 1, 6, 0, 0));
         }
@@ -175,6 +203,7 @@ impl Scenario {
                 aj["src_reg"] = a.src_reg.into();
                 aj["bias"] = a.bias.into();
                 aj["via_lddw"] = a.via_lddw.into();
+                aj["src_is_base"] = a.src_is_base.into();
                 aj["aligned"] = aligned(a).into();
                 adds.push(aj);
             }
@@ -209,6 +238,7 @@ impl Scenario {
                     src_reg: a["src_reg"].as_u8()?,
                     bias: a["bias"].as_i32()?,
                     via_lddw: a["via_lddw"].as_bool()?,
+                    src_is_base: a["src_is_base"].as_bool().unwrap_or(false),
                 });
             }
             execs.push(ExecSpec {
@@ -325,7 +355,9 @@ fn generate(rng: &mut Rng) -> Scenario {
                 }
             };
             let bias = if (off as i32 - bias) > 32000 || (off as i32 - bias) < -32000 { 0 } else { bias };
-            adds.push(Add { width, off, addend, base_reg, src_reg, bias, via_lddw });
+            // rarely: the same register is base and source
+            let src_is_base = rng.chance(1, 16);
+            adds.push(Add { width, off, addend, base_reg, src_reg, bias, via_lddw, src_is_base });
         }
         let tail_load = if rng.chance(1, 2) {
             let s = *rng.pick(&slots);
@@ -985,6 +1017,7 @@ fn minimise(sc: &Scenario, class: &str) -> (Scenario, usize) {
             let mut cand = cur.clone();
             cand.execs[t].adds[j].addend = 1;
             cand.execs[t].adds[j].via_lddw = false;
+            cand.execs[t].adds[j].src_is_base = false;
             evals += 1;
             let (v, _) = eval(&cand);
             if same_class(&v, class) {
@@ -1041,7 +1074,8 @@ fn replay_json(sc: &Scenario, seed: u64, index: u64, v: &Option<Violation>, out:
 
 fn scenario_for(seed: u64, index: u64) -> (Scenario, Rng) {
     let mut rng = Rng::new(mix(seed ^ 0x1818_1818, index));
-    let sc = generate(&mut rng);
+    let mut sc = generate(&mut rng);
+    sc.resolve(sim().prog_view as u64);
     (sc, rng)
 }
 
@@ -1079,7 +1113,7 @@ fn cmd_run(args: &[String]) -> i32 {
             Some(k) => index - start < k,
             None => index % hash_every == 0,
         };
-        if want_hash && v.is_none() {
+        if want_hash && v.is_none() && !sc.addr_dependent() {
             hashes.push((index, h));
         }
         if samples.len() < 2 && nontrivial && v.is_none() {
@@ -1191,6 +1225,8 @@ fn cmd_replay(args: &[String]) -> i32 {
         eprintln!("replay file has no explicit schedule");
         return 2;
     }
+    let mut sc = sc;
+    sc.resolve(sim().prog_view as u64);
     let (viol, out) = eval(&sc);
     let mut st = Stats::default();
     let (h, _, _) = summarise(&sc, &out, &mut st);
